@@ -9,7 +9,7 @@ from vlib.runner import Result
 
 ID = 'C06'
 RULE = ('Cases = merge_chain (3-6 thin layers spaced 0.6-2.5x the min-sep, per-instrument offsets and visibility), '
-        'split_candidate (2-3 height modes 0.5-3x the min-sep apart inside one group, >= 30 hits, modes with time '
+        'limit_crossing (three thin decks around a MIN_SEP_LIMS value so that a merge moves the merged base into the next bin), split_candidate (2-3 height modes 0.5-3x the min-sep apart inside one group, >= 30 hits, modes with time '
         'trends), layered, ref_window; rows time-ascending / descending / shuffled / per-instrument, dt ties; x '
         'MIN_SEP_VALS / MIN_SEP_LIMS with 1-4 bins x BASE_LVL_HEIGHT_PERC x BASE_LVL_LOOKBACK_PERC (70% below 100) x '
         'EXCLUDE_FOR_BASE_HEIGHT_CALC (35% non-empty). Oracle: (groups) every adjacent pair of the groups table, sorted '
@@ -23,14 +23,14 @@ ASSUMPTIONS = ['raw mixture count observed through a harness-side wrapper of mod
                'min-sep of a group for the layer clause = bin of the group\'s reported base (exclusion empty there)',
                'crashes of run() are left to C08']
 BUDGET = {'quick': 1300, 'thorough': 25000}
-WEIGHTS = {'merge_chain': 7, 'split_candidate': 9, 'layered': 2, 'ref_window': 1}
+WEIGHTS = {'merge_chain': 6, 'split_candidate': 9, 'limit_crossing': 3, 'layered': 2, 'ref_window': 1}
 
 
 @st.composite
 def strategy_(draw):
     case = draw(S.pipeline_case(WEIGHTS, vary=('sep', 'okta'), p_default_prms=0.0))
     prms = case['prms']
-    if draw(st.integers(0, 9)) < 8:
+    if case['cls'] != 'limit_crossing' and draw(st.integers(0, 9)) < 8:
         prms['BASE_LVL_HEIGHT_PERC'] = draw(st.sampled_from([0, 5, 5, 10, 50, 90, 100]))
         prms['BASE_LVL_LOOKBACK_PERC'] = draw(st.sampled_from([100, 100, 100, 75, 50, 50, 30, 30, 20, 10]))
     if draw(st.integers(0, 99)) < 35:
